@@ -55,7 +55,7 @@ theorem eval_call (X : Ctx p q) {f : String} {as : Fun.Terms}
     (hc : Compiled q n (.call f as rty) c s)
     (he : EnvRel (GP p) q n (fv (.call f as rty)) env ρ0) (hr : CRel (GP p) q n k c ρ0)
     (hbd : BoundOn (tfvStmt s []) ρ0) (hag : AgreeOn (tfvStmt s []) ρ0 ρ) :
-    Chunk p q (R p q) true (.eval (.call f as rty) env k) ⟨s, ρ, out, n⟩ := by
+    Chunk p q (R p q) true true μ (.eval (.call f as rty) env k) ⟨s, ρ, out, n⟩ := by
   simp only [good, Bool.and_eq_true, bne_iff_ne, ne_eq] at hg
   obtain ⟨⟨hfm, hgps⟩, _⟩ := hg
   have hpf := goodPs_pureFOs p as hgps
@@ -184,7 +184,7 @@ theorem eval_call (X : Ctx p q) {f : String} {as : Fun.Terms}
                 rw [bind_lookup_not_mem hbind hanot']
                 exact lookup_cons_self _ _ _
               refine .inr ⟨_, _, .eval d.body env' k, [], i1 + i2 + 1, _, f1, .inr ⟨none, hstep, rfl⟩,
-                (fun _ => .inr (.inl (by intro h; cases h))), (hc1.trans hc2).trans (.one s3), by simp, ?_⟩
+                (fun _ => .inr (.inl (by intro h; cases h))), (fun _ => .inl (by omega)), (hc1.trans hc2).trans (.one s3), by simp, ?_⟩
               refine SRel.eval (c := .var .cns ⟨a, 0⟩ τ') (ρ0 := ρnew) hgood (hcomp.mono (Nat.zero_le _))
                 henv ?_ ?_ (.refl _ _)
               · exact .mk (by simpa [Core.cnsVal] using hla) (hk.mono hn2) trivial
